@@ -124,6 +124,16 @@ def inline(crate, body, pick, max_depth=8, _closure_round=0):
                     tt_ = nb_['term']
                     if tt_['k'] == 'call' and tt_.get('callee_full', '').startswith('<Self as '):
                         tt_['self_ty'] = self_ty
+        # a generic callee inlined at a call site that names its type arguments: trait calls on a type parameter inside it
+        # (`T::from(..)` in `fn rendered<T: From<String>>(..) -> T`) are calls of the argument type's impl
+        gn = cj.get('generic_names') or []
+        ca = t.get('callee_args') or []
+        if gn and len(gn) == len(ca):
+            sub = {n_: a_ for n_, a_ in zip(gn, ca) if _TYPARAM.match(n_) and n_ != a_ and not _TYPARAM.match(a_)}
+            if sub:
+                for nb_ in new:
+                    if nb_['term']['k'] == 'call':
+                        _subst_call(crate, nb_['term'], sub)
         # rewrite returns / resumes
         for nb in new:
             tk = nb['term']['k']
@@ -290,6 +300,34 @@ def _inline_closure_calls(crate, body, pick, max_depth, rnd):
     return inline(crate, body, pick2, max_depth, _closure_round=rnd + 1)
 
 
+import re as _re
+_TYPARAM = _re.compile(r'^[A-Z][A-Za-z0-9_]*$')
+_QCALL = _re.compile(r'^<([A-Z][A-Za-z0-9_]*) as (.+)>::([A-Za-z0-9_]+)$')
+
+
+def _subst_call(crate, tt, sub):
+    """tt: a call terminator copied from a generic callee; sub: type parameter name -> type argument at the call site"""
+    ca = tt.get('callee_args')
+    if ca:
+        tt['callee_args'] = [sub.get(a, a) for a in ca]
+    m = _QCALL.match(tt.get('callee_full', '') or '')
+    if not m or m.group(1) not in sub or tt.get('resolved_local'):
+        return
+    self_ty = sub[m.group(1)]
+    trait, meth = m.group(2), m.group(3)
+    cands = [b for b in crate.all_bodies if b.name == meth and b.impl_trait and _sg(b.impl_trait) == _sg(trait) and
+             (b.impl_self or '').replace(' ', '') == self_ty.replace(' ', '') and b.def_kind == 'AssocFn']
+    if len(cands) != 1:
+        return
+    b = cands[0]
+    tt['callee_full'] = '<%s as %s>::%s' % (self_ty, trait, meth)
+    tt['resolved'] = b.path
+    tt['resolved_full'] = b.path
+    tt['resolved_local'] = True
+    tt['resolved_kind'] = 'item'
+    tt['devirtualised'] = True
+
+
 def local_picker(crate, only=None, never=None):
     """pick(): inline every call that statically resolves to a body of this crate (optionally filtered)."""
     def pick(t, depth, stack):
@@ -308,6 +346,17 @@ def local_picker(crate, only=None, never=None):
                 if (only is None or only(b)) and (never is None or not never(b)):
                     return b
             return None
+        if (not r or t.get('resolved_kind') != 'item') and t.get('callee_trait') in getattr(crate, 'traits', {}):
+            # a call through a *private* trait of this crate that has exactly one impl (a blanket impl for closures, a helper
+            # trait with one implementor): dynamic or generic, it can only run that impl's method
+            tr = crate.traits[t['callee_trait']]
+            if tr.get('reachable') is False:
+                ims = [i for i in crate.impls_of(t['callee_trait']) if not i.get('negative')]
+                if len(ims) == 1:
+                    its = [it for it in ims[0]['items'] if it['name'] == t.get('callee_name')]
+                    b = crate.bodies.get(its[0]['path']) if len(its) == 1 else None
+                    if b is not None and (only is None or only(b)) and (never is None or not never(b)):
+                        return b
         if not r or not t.get('resolved_local'):
             return None
         if t.get('resolved_kind') != 'item':
